@@ -6,7 +6,8 @@ import z3
 from .values import *   # noqa
 from .lib import *      # noqa
 from .lib import _simpb, _CMP
-from .engine import _b, _pick, OptV, IterV
+from .engine import _b, _pick, OptV, IterV, sort_of
+from . import front
 from contracts import dsl
 
 
@@ -36,6 +37,17 @@ def vec_prefix(ex, st, v, op, hint, sink=None):
     if to_z3(elem).sort() == B:
         elem = to_int(elem)
     params = _outer_binders([to_z3(elem), to_z3(v.n)])
+    canon = None
+    if sink is not None:
+        # vectors with the same element and length terms (up to the names of the binders) get the same prefix function:
+        # one definition, literally equal sums, no congruence reasoning needed
+        subs = [(k, z3.Const("canon!k", I))] + [(p, z3.Const("canon!p%d" % i, p.sort())) for i, p in enumerate(params)]
+        canon = (hint, z3.substitute(to_z3(elem), *subs).sexpr(), z3.substitute(to_z3(v.n), *subs).sexpr(),
+                 tuple(str(p.sort()) for p in params), str(so))
+        cache = ex.__dict__.setdefault("_prefix_canon", {})
+        if canon in cache:
+            P = cache[canon]
+            return (lambda j, P=P, params=params: P(*(list(params) + [to_z3(j)]))), params
     P = z3.Function(fresh_name(hint), *([p.sort() for p in params] + [I, so]))
 
     def Pf(j, P=P, params=params):
@@ -43,6 +55,9 @@ def vec_prefix(ex, st, v, op, hint, sink=None):
     body = z3.Implies(z3.And(0 <= k, k < to_z3(v.n)), Pf(k + 1) == op(Pf(k), elem))
     f1 = z3.ForAll(list(params) + [k], body)
     (sink if sink is not None else st.assume)(f1)
+    if canon is not None:
+        ex.__dict__["_prefix_canon"][canon] = P
+        ex.__dict__.setdefault("_prefix_canon_new", set()).add(id(P))
     return Pf, params
 
 
@@ -290,8 +305,10 @@ def vec_attr(ex, st, o, v, attr, node):
         return [(st, z3.ForAll([a], z3.Implies(z3.And(0 <= a, a + 1 < to_z3(v.n)),
                                                _b(scalar_compare(ex, st, "LtE", v.at(a), v.at(a + 1))))))]
     if attr == "is_unique":
-        if v.kind == "index":
-            raise Unsupported("is_unique")
+        a, b = fresh(I, "a"), fresh(I, "b")
+        with binding(a, b):
+            body = z3.Implies(z3.And(0 <= a, a < b, b < to_z3(v.n)), z3.Not(z3eq(v.at(a), v.at(b))))
+        return [(st, z3.ForAll([a, b], body))]
     if attr == "str":
         return [(st, StrAcc(o))]
     if attr == "dtype":
@@ -506,6 +523,13 @@ def v_cumsum(ex, st, o, args, kwargs, node):
     if _params:
         raise Unsupported("cumsum of a vector defined under a quantifier")
     st.assume(P(0) == 0)
+    # every prefix of a sum of non-negative terms is non-negative (lemma psum_nonneg, instantiated at this vector)
+    kk, mm = fresh(I, "k"), fresh(I, "m")
+    with binding(kk):
+        e0 = to_z3(v.at(kk))
+    if e0.sort() != B:
+        allnn = z3.ForAll([kk], z3.Implies(z3.And(0 <= kk, kk < to_z3(v.n)), e0 >= 0))
+        st.assume(z3.Implies(allnn, z3.ForAll([mm], z3.Implies(z3.And(0 <= mm, mm <= to_z3(v.n)), P(mm) >= 0))))
     return st.alloc(Vec(v.n, lambda k: P(to_z3(k) + 1), idx=v.idx, kind=v.kind))
 
 
@@ -1591,3 +1615,192 @@ def t_fillna(ex, st, o, args, kwargs, node):
             raise Unsupported("fillna on a nullable column")
     used(ex, "fillna on text columns: missing text is not modelled (columns are total), so fillna changes nothing")
     return None
+
+
+# =============================================================================== unique / first-appearance rank / groupby
+class UniqueOf:
+    """col.unique(): the distinct values of a column in order of first appearance (only its length and its use as the
+    index of a rank table are modelled)"""
+
+    def __init__(self, v, count):
+        self.v, self.n = v, count
+
+
+class RankMap:
+    """pd.Series(np.arange(len(u)), index=u) for u = col.unique(): maps a value to its first-appearance rank"""
+
+    def __init__(self, uniq):
+        self.uniq = uniq
+
+
+@vm("unique")
+def v_unique(ex, st, o, args, kwargs, node):
+    v = st.get(o)
+    u = fresh(I, "n_unique")
+    st.assume(u >= 0)
+    st.assume(u <= to_z3(v.n))
+    used(ex, "Series.unique(): distinct values in order of first appearance")
+    return UniqueOf(v, u)
+
+
+_pd_series_plain = BUILTINS["pandas.Series"]
+
+
+def pd_series_rank(ex, st, args, kwargs, node):
+    idx = st.get(kwargs["index"]) if "index" in kwargs else None
+    if isinstance(idx, UniqueOf):
+        v = st.get(args[0])
+        k = fresh(I, "k")
+        if not (isinstance(v, Vec) and z3.is_true(z3.simplify(to_z3(v.at(k)) == k)) and
+                z3.is_true(z3.simplify(to_z3(v.n) == to_z3(idx.n)))):
+            raise Unsupported("pd.Series(values, index=col.unique()) other than np.arange(len(unique))")
+        return RankMap(idx)
+    return _pd_series_plain(ex, st, args, kwargs, node)
+
+
+BUILTINS["pandas.Series"] = pd_series_rank
+_v_map_plain = METHODS[(Vec, "map")]
+
+
+@vm("map")
+def v_map_rank(ex, st, o, args, kwargs, node):
+    f = st.get(args[0])
+    if not isinstance(f, RankMap):
+        return _v_map_plain(ex, st, o, args, kwargs, node)
+    v = st.get(o)
+    if f.uniq.v.at is not v.at:
+        raise Unsupported("rank table of another column")
+    used(ex, "col.map(Series(arange(len(u)), index=u)) with u = col.unique(): first-appearance rank of each value "
+             "(equal values equal ranks; a value whose rank is smaller than an earlier row's appeared before that row)")
+    R = z3.Function(fresh_name("rank"), I, I)
+    n, U = to_z3(v.n), to_z3(f.uniq.n)
+    a, b, j = fresh(I, "a"), fresh(I, "b"), fresh(I, "j")
+    with binding(a, b, j):
+        ea, eb, ej = v.at(a), v.at(b), v.at(j)
+    st.assume(z3.ForAll([a], z3.Implies(z3.And(0 <= a, a < n), z3.And(0 <= R(a), R(a) < U))))
+    st.assume(z3.ForAll([a, b], z3.Implies(z3.And(0 <= a, a < n, 0 <= b, b < n), (R(a) == R(b)) == z3eq(ea, eb))))
+    st.assume(z3.ForAll([a, b], z3.Implies(z3.And(0 <= a, a < b, b < n, R(b) < R(a)),
+                                           z3.Exists([j], z3.And(0 <= j, j < a, z3eq(ej, eb))))))
+    return st.alloc(Vec(v.n, lambda k: R(to_z3(k)), idx=v.idx, elt=dsl.Int, kind="series"))
+
+
+class GroupBy:
+    def __init__(self, tabref, keys, cols=None):
+        self.tabref, self.keys, self.cols = tabref, keys, cols
+
+
+@tm("groupby")
+def t_groupby(ex, st, o, args, kwargs, node):
+    keys = st.get(args[0]) if args else None
+    if isinstance(keys, ListV):
+        keys = [st.get(x) for x in keys.items]
+    elif isinstance(keys, str):
+        keys = [keys]
+    opts = {k: st.get(v) for k, v in kwargs.items()}
+    if not keys or not all(isinstance(k, str) for k in keys) or opts.get("sort", True) is not False:
+        raise Unsupported("groupby other than groupby([columns], sort=False)")
+    if set(opts) - {"sort", "as_index", "group_keys"}:
+        raise Unsupported("groupby options %s" % sorted(opts))
+    return GroupBy(o, keys)
+
+
+@method(GroupBy, "__getitem__")
+def gb_getitem(ex, st, o, args, kwargs, node):
+    g = st.get(o)
+    return GroupBy(g.tabref, g.keys, st.get(args[0]))
+
+
+@method(GroupBy, "apply")
+def gb_apply(ex, st, o, args, kwargs, node):
+    """groupby([key], sort=False)[cols].apply(f) where the key column is non-decreasing along the rows (obligation):
+    the groups are then the maximal runs of equal key, in row order; f (a function under contract returning a one-row
+    table) is applied to each run and the results are concatenated."""
+    g = st.get(o)
+    f = st.get(args[0])
+    t = st.get(g.tabref)
+    if len(g.keys) != 1 or not isinstance(f, Func) or f.kind != "repo" or kwargs or len(args) != 1:
+        raise Unsupported("groupby(...).apply: one key column and a repository function under contract")
+    c = dsl.CONTRACTS.get(f.target)
+    if c is None or not isinstance(c.returns, dsl.TabT) or not c.returns.cols:
+        raise Unsupported("groupby(...).apply(f): f needs a contract with a typed one-row table result")
+    key = t.cols[g.keys[0]]
+    n = to_z3(t.n)
+    line = getattr(node, "lineno", None)
+    a = fresh(I, "a")
+    with binding(a):
+        adj = z3.Implies(z3.And(0 <= a, a + 1 < n), to_z3(key(a)) <= to_z3(key(a + 1)))
+    ex.oblig("groupby_key_sorted", "L%s" % line, st, z3.ForAll([a], adj), line=line)
+    used(ex, "groupby(key, sort=False).apply(f) on a non-decreasing key: groups = maximal runs of equal key, in order "
+             "(adjacent-monotone => monotone is lemma adjacent_monotone)")
+    G = fresh(I, "n_groups")
+    lo = z3.Function(fresh_name("grp_lo"), I, I)
+    r, k2 = fresh(I, "r"), fresh(I, "k")
+    with binding(r, k2):
+        kk = to_z3(key(k2))
+        klo = to_z3(key(lo(r)))
+        kprev = to_z3(key(lo(r) - 1))
+    hi = lambda x: lo(x + 1)
+    st.assume(z3.And(G >= 0, G <= n, (G == 0) == (n == 0), lo(0) == 0, lo(G) == n))
+    st.assume(z3.ForAll([r], z3.Implies(z3.And(0 <= r, r < G), z3.And(0 <= lo(r), lo(r) < hi(r), hi(r) <= n))))
+    # the same fact, triggered on the upper boundary (so that lo(r) >= 1 is found for r >= 1 without solving r' + 1 = r)
+    st.assume(z3.ForAll([r], z3.Implies(z3.And(1 <= r, r <= G), z3.And(0 <= lo(r - 1), lo(r - 1) < lo(r), lo(r) <= n)),
+                        patterns=[lo(r)]))
+    st.assume(z3.ForAll([r, k2], z3.Implies(z3.And(0 <= r, r < G, lo(r) <= k2, k2 < hi(r)), kk == klo)))
+    st.assume(z3.ForAll([r], z3.Implies(z3.And(1 <= r, r < G), kprev < klo)))
+    # f on each run: result row r satisfies f's postcondition for the sub-table of run r
+    cols = g.cols if g.cols is not None else list(t.cols)
+    cols = [st.get(x) for x in (cols.items if isinstance(cols, ListV) else cols)]
+    fn_node, _m, _c = front.find_def(f.target)
+    pname = fn_node.args.args[0].arg
+    out_cols = {}
+    for cn, ct in c.returns.cols.items():
+        if cn in c.returns.opt and cn not in cols:
+            continue
+        if isinstance(ct, dsl._NReal):
+            A, Nn = z3.Function(fresh_name("grp_" + cn), I, R), z3.Function(fresh_name("grp_" + cn + "_null"), I, B)
+            out_cols[cn] = (lambda x, A=A, Nn=Nn: NF(Nn(to_z3(x)), A(to_z3(x))))
+        else:
+            A = z3.Function(fresh_name("grp_" + cn), I, sort_of(ex.ctx, ct))
+            out_cols[cn] = (lambda x, A=A: A(to_z3(x)))
+    rr = fresh(I, "r")
+    with binding(rr):
+        sub = Tab(hi(rr) - lo(rr), {cn: (lambda j, fcol=t.cols[cn]: fcol(to_z3(j) + lo(rr))) for cn in cols}, Idx("group"),
+                  {cn: t.elts.get(cn) for cn in cols})
+        row = Tab(1, {cn: (lambda j, fc=fc: fc(rr)) for cn, fc in out_cols.items()}, RangeIdx(1), dict(c.returns.cols))
+        s2 = st.fork()
+        s2.assume(z3.And(0 <= rr, rr < G))
+        npc = len(s2.pc)
+        env = {pname: s2.alloc(sub), "result": s2.alloc(row)}
+        for rq in c.requires:
+            pre = ex.spec_formula(rq, dict(env), s2)
+            ex.oblig("call_pre", "%s@L%s(group)" % (c.key.split("::")[1], line), s2, pre, line=line)
+        ex.assume_mode += 1
+        try:
+            posts = [_b(ex.spec_formula(txt, dict(env), s2)) for _lab, txt in c.ensures]
+        finally:
+            ex.assume_mode -= 1
+        extra = s2.pc[npc:]
+    ex.ctx.used_contracts.add(c.key)
+    st.heap.update({k: v for k, v in s2.heap.items() if k not in st.heap})
+    st.assume(z3.ForAll([rr], z3.Implies(z3.And(0 <= rr, rr < G), z3.And(list(extra) + posts + [z3.BoolVal(True)]))))
+    st.ghost = dict(st.ghost)
+    st.ghost["view_groups"] = (G, lo)
+    return st.alloc(Tab(G, out_cols, Idx("groups"), dict(c.returns.cols)))
+
+
+@builtin("group_lo")
+def sp_group_lo(ex, st, args, kwargs, node):
+    """group_lo(r): first row of the r-th group formed by the last groupby(...).apply (spec language); group_lo(n_groups)
+    is the row count"""
+    g = st.ghost.get("view_groups")
+    if g is None:
+        raise SpecError("group_lo() without a groupby")
+    return g[1](to_z3(st.get(args[0])))
+
+
+@builtin("n_groups")
+def sp_n_groups(ex, st, args, kwargs, node):
+    g = st.ghost.get("view_groups")
+    if g is None:
+        raise SpecError("n_groups() without a groupby")
+    return g[0]
